@@ -180,6 +180,25 @@ def sockReads : Nat → Sock → List (Except Err Packet)
 def routerStream (regs : List Nat) (s : Sock) : Queues × Bool :=
   routerReads Gen.C18.routerHandlers (sockReads (s.flatten.length + 1) s) (routerRun (regs.map ROp.reg))
 
+/-! ### several CPX links in one process
+
+Each `CPXRouter` object owns its queue table (`__init__` creates a fresh dict; Gen pins that).  A world maps a link
+number to that link's table; an operation is tagged with the link whose router thread / receiver performs it. -/
+
+abbrev World := Nat → Queues
+
+def worldStep (w : World) (op : Nat × ROp) : World :=
+  fun j => if j = op.1 then routerStep (w j) op.2 else w j
+
+def worldRun (ops : List (Nat × ROp)) : World := ops.foldl worldStep (fun _ => [])
+
+/-- the operations of link `i` in a multi-link schedule -/
+def opsOf (i : Nat) (ops : List (Nat × ROp)) : List ROp := (ops.filter (fun o => o.1 == i)).map (·.2)
+
+/-- the faulty alternative (what a queue table shared between router objects would do): every operation of every
+link acts on ONE table -/
+def sharedRun (ops : List (Nat × ROp)) : Queues := routerRun (ops.map (·.2))
+
 /-! ### CRTP over CPX (TcpDriver) -/
 
 def cpxTargetSTM32 : Nat := 1
